@@ -25,6 +25,9 @@ def configs(tier, known):
             if kind != "node":
                 out.append(dict(kind=kind, n=5, cfg=dict(CFG, extras=False, L=3), hidden=False, d=1, persistent=P2,
                                 assertions=0, judge="c03", extra=extra, only_pre_first=True))
+    for kind, fl in (("mixin", "tree"), ("light", "loop"), ("mixin", "loop"), ("light", "tree")) + ((("node", "value"), ("mixin", "attr")) if tier == "thorough" else ()):
+        out.append(dict(kind=kind, n=3, cfg=dict(CFG, extras=False), hidden=False, d=1 if tier == "quick" else 2, persistent=P2,
+                        assertions=0, judge="c03", extra=extra, only_pre_first=True, flavour=fl))
     for kind in ("mixin", "light"):
         out.append(dict(kind=kind, n=3, cfg=dict(CFG, extras=False), hidden=False, d=0, persistent=P4, assertions=0,
                         judge="c03", extra=extra, reclimit=120,
